@@ -40,10 +40,17 @@ LEVEL_TEXT = ("proof (Lean 4) over the lifecycle model M7 (release after the tim
 ASSUMPTIONS = LP.COMMON_ASSUMPTIONS + [
     "C36_release_after_timeout(b) runs the pending release task from a state with the lock free and no send in between; fairness of the asyncio scheduler "
     "(the timer task eventually runs) is not modelled — the monitor checks on the real stack that the release happens at exactly announcement + idle_timeout",
+    "DBOS half under latency: what DBOS adds to the decorator is taken to be latency (and suspension of the calling task) on the lifecycle statements and on "
+    "deliveries; a process crash in the middle of a release (C26's crash timeout) is not injected; the protocol machine's `processed` is what the run has reduced, "
+    "including the reloading tick that _do_resume folds into the rebuilt state (which is NOT in the tick log: finding C36/dbos_second_reload_fails)",
     "'continues from where it stopped': the reducer state (C11) — context state store contents are persisted by the store itself (C19-C21), not modelled here; "
     "the monitor compares the final result with the uninterrupted run",
 ]
-TRUSTED_EXTRA = LP.TRUSTED_EXTRA
+TRUSTED_EXTRA = LP.TRUSTED_EXTRA + [
+    "harness/server/dbos_gated.py: the stand-in engine under DBOSIdleReleaseDecorator (BasicRuntime; ticks delivered by run id after a virtual-time latency, "
+    "as DBOS.send is; DBOS.retrieve_workflow_async / delete_workflow_async emulated by hooks), the latency wrapper around the real SqliteRunLifecycleLock, the "
+    "task bookkeeping that attributes lock calls to releasers / senders, the lifecycle row inserted by the harness",
+]
 
 WITNESSES = [
     ("premature_idle(F14)", IC.WITNESS_PREMATURE_IDLE, "C36/released_while_not_idle:premature_idle"),
